@@ -57,6 +57,11 @@ func scanOutside(t *Trans, f *ast.File, exported map[string]string) {
 		if !ok {
 			return true
 		}
+		for _, fi := range t.cbUnderLock {
+			if fi.Exported && se.Sel.Name == fi.Decl.Name.Name {
+				t.fail(se.Pos(), "%s (which invokes a callback while it may hold a lock) appears to be used outside the translated packages: that callback cannot be checked", fi.Name)
+			}
+		}
 		if lab, g := exported[se.Sel.Name]; g {
 			t.fail(se.Pos(), "field named %s (guarded: %s) is used outside its package; the translator only follows the four store packages", se.Sel.Name, lab)
 		}
